@@ -25,14 +25,14 @@ func (mp *MemPool) VerifVerify(tx *types.Tx) (types.Transaction, error) {
 	t := types.NewTransaction(tx)
 	return t, mp.verifyTx(t)
 }
-func (mp *MemPool) VerifPut(t types.Transaction) error            { return mp.put(t) }
+func (mp *MemPool) VerifPut(t types.Transaction) error               { return mp.put(t) }
 func (mp *MemPool) VerifGet(max uint32) ([]types.Transaction, error) { return mp.get(max) }
-func (mp *MemPool) VerifExist(h []byte) *types.Tx                 { return mp.exist(h) }
-func (mp *MemPool) VerifRemoveTx(tx *types.Tx) error              { return mp.removeTx(tx) }
-func (mp *MemPool) VerifOnBlock(b *types.Block) error             { return mp.removeOnBlockArrival(b) }
-func (mp *MemPool) VerifAcceptChainIDHash() []byte                { return mp.acceptChainIdHash }
-func (mp *MemPool) VerifEvict()                                   { mp.evictTransactions() }
-func VerifSetEvictPeriod(d time.Duration)                         { evictPeriod = d }
+func (mp *MemPool) VerifExist(h []byte) *types.Tx                    { return mp.exist(h) }
+func (mp *MemPool) VerifRemoveTx(tx *types.Tx) error                 { return mp.removeTx(tx) }
+func (mp *MemPool) VerifOnBlock(b *types.Block) error                { return mp.removeOnBlockArrival(b) }
+func (mp *MemPool) VerifAcceptChainIDHash() []byte                   { return mp.acceptChainIdHash }
+func (mp *MemPool) VerifEvict()                                      { mp.evictTransactions() }
+func VerifSetEvictPeriod(d time.Duration)                            { evictPeriod = d }
 
 // VerifAge makes the account's list look idle for longer than the eviction period (what the passing of wall-clock
 // time does in production), so that the next eviction run takes exactly the chosen accounts.
